@@ -1088,6 +1088,8 @@ func driveDecoders(tw *TraceWriter, rnd *rand.Rand, steps int) {
 				}
 			}
 		}
+		sig, _ := guardedDecode(kind, in, newBuf)
+		ev["over"] = sig != ""
 		tw.Emit(ev)
 	}
 }
